@@ -234,8 +234,9 @@ def recompute_assembled(prog: Prog) -> None:
     for _ in range(8):
         cur: set[str] = set()
         walk(prog.root, True, prev, cur)
-        for nodes in prog.inc_roots.values():
-            walk(nodes, True, prev, cur)
+        live = live_includes(prog)  # an included file nobody includes any more assembles (and applies) nothing
+        for rel, nodes in prog.inc_roots.items():
+            walk(nodes, rel in live, prev, cur)
         if cur == prev:
             break
         prev = cur
@@ -808,6 +809,12 @@ class Gen:
                 # iterations that generate nothing at all (a comment, an untaken .if): whatever is kept per
                 # iteration - scopes, symbols - must stay balanced for what follows the loop
                 body = [rng.choice([stmt("; nothing to do", "comment"), block(".if 0 {", [stmt("nop")], "if", assembled=False)])]
+                if depth == 0 and not in_lm:
+                    # ... and a block with a label of its own right after the loop
+                    lname = f"ef{self.uid()}"
+                    self.note_label(lname)
+                    self.prog.local_labels.append(lname)
+                    return [block(f".for {var} := {lo}, {hi} {{", body, "for", assembled=iters >= 1), block("{", [stmt(f"{lname}:", "label"), self.simple_instr()], "block")]
             return [block(f".for {var} := {lo}, {hi} {{", body, "for", assembled=iters >= 1)]
         if kind == "apply":
             name, nparams = rng.choice(self.macros)
